@@ -310,15 +310,6 @@ pub fn run_ops(p: &Prepared, ops: &[Op]) -> Result<(Vec<String>, usize), String>
     Ok((toks, done))
 }
 
-/// Known-finding class a gradual misbehaviour on this map may belong to ("" if none).
-pub fn taiko_class(p: &Prepared) -> &'static str {
-    if p.mode == 1 && !p.taiko_regular_start {
-        "taiko-gradual-first-two-objects"
-    } else {
-        ""
-    }
-}
-
 /// C02: full `next` walk against the one-shot table, plus the model correspondence line.
 pub fn check_walk(run: &mut Run, case_id: &str, p: &Prepared) {
     let mut g = match new_gradual(p) {
@@ -336,7 +327,7 @@ pub fn check_walk(run: &mut Run, case_id: &str, p: &Prepared) {
             Ok(Some(a)) => values.push(a),
             Ok(None) => break,
             Err(e) => {
-                run.fail("oracle:gradual-next-panic", taiko_class(p), case_id, e, p.repro());
+                run.fail("oracle:gradual-next-panic", "", case_id, e, p.repro());
                 panicked = true;
                 break;
             }
@@ -345,7 +336,9 @@ pub fn check_walk(run: &mut Run, case_id: &str, p: &Prepared) {
     if panicked {
         return;
     }
-    let class = taiko_class(p);
+    // (the former class taiko-gradual-first-two-objects is fixed in /repo: a taiko gradual misbehaviour
+    // on a map with an irregular start is an ordinary, unlisted failure again)
+    let class = "";
     if announced != values.len() {
         run.fail(
             "oracle:announced-len",
@@ -385,7 +378,7 @@ pub fn check_walk(run: &mut Run, case_id: &str, p: &Prepared) {
     if let Some(last) = values.last() {
         if dbg(last) != dbg(&p.full) {
             let mut cls = class;
-            if p.mode == 1 && p.taiko_regular_start && !p.taiko_trailing_hit && values.len() == p.units {
+            if p.mode == 1 && !p.taiko_trailing_hit && values.len() == p.units {
                 cls = "taiko-gradual-trailing-nonhit";
             }
             run.fail(
@@ -637,13 +630,12 @@ fn apply_prefix(g: &mut GradualDifficulty, prefix: &[Op]) -> Result<(), String> 
 /// C15 oracle for one op sequence: after every prefix, `len()` equals the number of values
 /// still to come; `nth(k)` equals the last of `k+1` `next` calls; exhausted stays `None`.
 pub fn check_protocol(run: &mut Run, case_id: &str, p: &Prepared, ops: &[Op]) {
-    let tclass = taiko_class(p);
     for cut in 0..=ops.len() {
         let prefix = &ops[..cut];
         let rest = match remaining_values(p, prefix) {
             Ok(v) => v,
             Err(e) => {
-                run.fail("oracle:protocol-panic", tclass, case_id, format!("{e} after {}", ops_str(prefix)), p.repro());
+                run.fail("oracle:protocol-panic", "", case_id, format!("{e} after {}", ops_str(prefix)), p.repro());
                 return;
             }
         };
@@ -660,16 +652,9 @@ pub fn check_protocol(run: &mut Run, case_id: &str, p: &Prepared, ops: &[Op]) {
         let len_ok = matches!(len, Ok(l) if l == rest.len());
         let hint_ok = matches!(hint, Ok((lo, Some(hi))) if lo == rest.len() && hi == rest.len());
         if !len_ok || !hint_ok {
-            let cls = if p.mode == 1 && !tclass.is_empty() {
-                tclass
-            } else if p.mode == 1 && rest.is_empty() && matches!(len, Ok(l) if l > (1usize << 60)) || (p.mode == 1 && len.is_err()) {
-                "taiko-gradual-first-two-objects"
-            } else {
-                ""
-            };
             run.fail(
                 "oracle:len-ne-remaining",
-                cls,
+                "",
                 case_id,
                 format!("after {}: len={:?} size_hint={:?} remaining={}", ops_str(prefix), len, hint, rest.len()),
                 p.repro(),
@@ -684,7 +669,7 @@ pub fn check_protocol(run: &mut Run, case_id: &str, p: &Prepared, ops: &[Op]) {
             match got {
                 Err(e) => run.fail(
                     "oracle:nth-panic",
-                    tclass,
+                    "",
                     case_id,
                     format!("{e} at nth({k}) after {}", ops_str(prefix)),
                     p.repro(),
@@ -700,9 +685,7 @@ pub fn check_protocol(run: &mut Run, case_id: &str, p: &Prepared, ops: &[Op]) {
                         let clamps = expected.is_none()
                             && !rest.is_empty()
                             && matches!(&got, Some(a) if dbg(a) == dbg(rest.last().unwrap()));
-                        let cls = if !tclass.is_empty() {
-                            tclass
-                        } else if clamps {
+                        let cls = if clamps {
                             "gradual-nth-clamps-to-last"
                         } else {
                             ""
@@ -733,7 +716,7 @@ pub fn check_protocol(run: &mut Run, case_id: &str, p: &Prepared, ops: &[Op]) {
             if !matches!(r1, Ok(None)) || !matches!(r2, Ok(None)) {
                 run.fail(
                     "oracle:exhausted-not-none",
-                    tclass,
+                    "",
                     case_id,
                     format!("after nth(MAX): next={:?} nth({k})={:?}", r1.as_ref().map(|o| o.is_some()), r2.as_ref().map(|o| o.is_some())),
                     p.repro(),
@@ -746,7 +729,6 @@ pub fn check_protocol(run: &mut Run, case_id: &str, p: &Prepared, ops: &[Op]) {
 
 /// Standard adaptors must see the same sequence as plain iteration.
 pub fn check_adaptors(run: &mut Run, case_id: &str, p: &Prepared) {
-    let tclass = taiko_class(p);
     let Ok(plain) = remaining_values(p, &[]) else { return };
     let plain: Vec<String> = plain.iter().map(dbg).collect();
     for k in 1..=4usize {
@@ -764,9 +746,7 @@ pub fn check_adaptors(run: &mut Run, case_id: &str, p: &Prepared) {
                             with_finding.push(last.clone());
                         }
                     }
-                    let cls = if !tclass.is_empty() {
-                        tclass
-                    } else if got == with_finding {
+                    let cls = if got == with_finding {
                         "gradual-nth-clamps-to-last"
                     } else {
                         ""
@@ -779,7 +759,7 @@ pub fn check_adaptors(run: &mut Run, case_id: &str, p: &Prepared) {
                         p.repro(),
                     );
                 }
-                Err(e) => run.fail("oracle:adaptor-panic", tclass, case_id, e, p.repro()),
+                Err(e) => run.fail("oracle:adaptor-panic", "", case_id, e, p.repro()),
             }
         }
         // skip
@@ -796,9 +776,7 @@ pub fn check_adaptors(run: &mut Run, case_id: &str, p: &Prepared) {
                     } else {
                         exp.clone()
                     };
-                    let cls = if !tclass.is_empty() {
-                        tclass
-                    } else if got == with_finding {
+                    let cls = if got == with_finding {
                         "gradual-nth-clamps-to-last"
                     } else {
                         ""
@@ -811,7 +789,7 @@ pub fn check_adaptors(run: &mut Run, case_id: &str, p: &Prepared) {
                         p.repro(),
                     );
                 }
-                Err(e) => run.fail("oracle:adaptor-panic", tclass, case_id, e, p.repro()),
+                Err(e) => run.fail("oracle:adaptor-panic", "", case_id, e, p.repro()),
             }
         }
     }
@@ -821,10 +799,10 @@ pub fn check_adaptors(run: &mut Run, case_id: &str, p: &Prepared) {
         match got {
             Ok(v) => {
                 if v.len() != plain.len() || v.iter().zip(plain.iter()).any(|((x, y), z)| x != z || y != z) {
-                    run.fail("oracle:zip", tclass, case_id, format!("zip yields {} of {}", v.len(), plain.len()), p.repro());
+                    run.fail("oracle:zip", "", case_id, format!("zip yields {} of {}", v.len(), plain.len()), p.repro());
                 }
             }
-            Err(e) => run.fail("oracle:adaptor-panic", tclass, case_id, e, p.repro()),
+            Err(e) => run.fail("oracle:adaptor-panic", "", case_id, e, p.repro()),
         }
     }
 }
